@@ -4,6 +4,8 @@ import XmppModel.Model.Close
 
     hist <serve 0|1> <op,op,…>        -> <res,res,…> <wire items> <outClosed><inClosed> <serve result>
     closeblock                            -> reads=<ok|blocked> tags=<n>   (Close waiting in its write)
+    abandon <op> <cancel|expire|done|alive> <short 0|1>
+                                          -> tx=<ok|failed> setters=<calls> read=<kept|moved> inforce=<close|…> serve=<…>
     whist <failing write index|-> <op,…>  -> <res,…> <wire items> <outClosed> <closing-tag write attempts>
     sched <kind,kind,…> <i,i,…>       -> <wire events> <per goroutine outcome>
 
@@ -90,6 +92,23 @@ def handle (args : List String) : Option String :=
     let l ← mapM? parseWOp (splitList ops)
     let r := WHist.run f WHist.init l
     pure s!"{joinList (r.2.map showWRes)} {joinList (r.1.wire.map showWItem)} {showBool r.1.outClosed} {r.1.closeAttempts}"
+  | ["abandon", _op, kind, short] => do
+    -- SetCloseDeadline(t), then a transmit call blocked in its write whose context ends (or not)
+    let sh ← parseBool short
+    let ends := kind != "alive"
+    let s0 := ConnDl.run .write ConnDl.init [.closeDeadline 7]
+    let s := ConnDl.run .write s0 [.transmit ends]
+    let calls := (s.log.drop s0.log.length).map fun (c : ConnDl.Setter × ConnDl.Dl) =>
+      (match c.1 with | .both => "D" | .read => "R" | .write => "W") ++
+      (match c.2 with | .zero => "z" | .past => "p" | .at _ => "f")
+    let read := if (s.log.drop s0.log.length).any (fun c => ConnDl.movesRead c.1) then "moved" else "kept"
+    let inforce := match s.rd with | .at 7 => "close" | .zero => "zero" | _ => "other"
+    let serve := match ConnDl.readEnds s with
+      | some 7 => if sh then "deadline" else "blocked"
+      | none => if sh then "never" else "blocked"
+      | some _ => if sh then "early" else "returned"
+    let tx := if ends then "failed" else "ok"
+    pure s!"tx={tx} setters={joinList calls} read={read} inforce={inforce} serve={serve}"
   | ["sched", kinds, sched] => do
     let ks ← mapM? parseKind (splitList kinds)
     let sc ← mapM? (fun (x : String) => x.toNat?) (splitList sched)
